@@ -21,11 +21,12 @@ EXTENDS Deb822, DebDocsTables
 
 IsList(kind) == kind \in {"archs", "dep", "clist", "slist", "cslist", "mstring", "sums:md5", "sums:sha1", "sums:sha256", "sums:sha512", "chfiles"}
 \* model: [present : SUBSET field indices, n : list length used, folded : BOOLEAN]
-ModelValue(row, n) == IF IsList(row[3]) /\ row[3] # "mstring" THEN SubSeq(row[4], 1, n) ELSE row[4]
+ModelValue(row, n) == IF row[3] = "scalar-n" THEN row[4][n]            \* a scalar with one text per n
+                      ELSE IF IsList(row[3]) /\ row[3] # "mstring" THEN SubSeq(row[4], 1, n) ELSE row[4]
 
 CommaSep(folded) == IF folded THEN <<COMMA, LF, SP>> ELSE <<COMMA, SP>>
 RenderValue(kind, v, folded) ==
-    CASE kind \in {"scalar", "version", "arch", "int", "bool"} -> <<SP>> \o v
+    CASE kind \in {"scalar", "scalar-n", "version", "arch", "int", "bool"} -> <<SP>> \o v
       [] kind = "mstring" -> <<SP>> \o v[1] \o Concat([k \in 1..(Len(v) - 1) |-> <<LF, SP>> \o (IF v[k + 1] = <<>> THEN <<DOT>> ELSE v[k + 1])])
       [] kind = "archs" -> <<SP>> \o Join(v, <<SP>>)
       [] kind \in {"dep", "clist", "cslist"} -> <<SP>> \o Join(v, CommaSep(folded))
